@@ -38,6 +38,7 @@ func runC02(c *h.Ctx) {
 	}
 	if c.Want("guarded") {
 		guardedRT(c)
+		guardedNamedRT(c)
 	}
 	if c.Want("quote") {
 		quoteCheck(c)
